@@ -218,3 +218,181 @@ func genTinyFault(idx int, r *rand.Rand) *History {
 	h.Note += fmt.Sprintf(" ; fault %s on letter %d mode %d", fk, pos, fm%2)
 	return h
 }
+
+// ---- tinyscope: bounded-exhaustive histories over a 4-scope tree with EXPLICIT scope creation ----
+//
+// Logical scopes: 0 root, 1 child of root, 2 child of 1 (grandchild), 3 second child of root. The
+// alphabet holds one letter per scope creation, so every order of scope creations relative to the
+// registrations and invocations is enumerated (C08, C16: "created before or after"). A sequence that
+// uses a scope before creating it, or creates a scope twice / before its parent, is not a history and
+// is skipped. Scopes still missing at the end are created before the observation suffix, which invokes
+// every key from all four scopes.
+
+var tinyScopeParent = []int{-1, 0, 1, 0}
+
+type tinySLetter struct {
+	tinyLetter
+	mk int // > 0: create logical scope mk
+}
+
+var tinySAlphabet = buildTinySAlphabet()
+
+const tinySMaxLen = 6
+
+func buildTinySAlphabet() []tinySLetter {
+	var out []tinySLetter
+	for s := 1; s <= 3; s++ {
+		out = append(out, tinySLetter{tinyLetter{kind: OpScope, name: fmt.Sprintf("mk-s%d", s)}, s})
+	}
+	type sig struct {
+		name string
+		p    []Param
+		r    []Res
+	}
+	provides := []sig{
+		{"()->A", nil, []Res{{K: tinyA}}},
+		{"(A)->B", []Param{{K: tinyA}}, []Res{{K: tinyB}}},
+		{"()->A@g", nil, []Res{{K: tinyGA}}},
+	}
+	for _, sg := range provides {
+		for s := 0; s <= 3; s++ {
+			out = append(out, tinySLetter{tinyLetter{OpProvide, s, false, sg.p, sg.r, fmt.Sprintf("%s@s%d", sg.name, s)}, 0})
+		}
+		for _, s := range []int{2, 3} {
+			out = append(out, tinySLetter{tinyLetter{OpProvide, s, true, sg.p, sg.r, fmt.Sprintf("%s@s%d+export", sg.name, s)}, 0})
+		}
+	}
+	for _, s := range []int{0, 1, 2} {
+		out = append(out, tinySLetter{tinyLetter{OpDecorate, s, false, []Param{{K: tinyA}}, []Res{{K: tinyA}}, fmt.Sprintf("dec(A)->A@s%d", s)}, 0})
+	}
+	for _, s := range []int{0, 1} {
+		out = append(out, tinySLetter{tinyLetter{OpDecorate, s, false, []Param{{K: tinyGA}}, []Res{{K: tinyGA, Whole: true, N: 2}}, fmt.Sprintf("dec([]A@g)@s%d", s)}, 0})
+	}
+	for _, s := range []int{0, 2, 3} {
+		out = append(out, tinySLetter{tinyLetter{OpInvoke, s, false, []Param{{K: tinyB}}, nil, fmt.Sprintf("inv(B)@s%d", s)}, 0})
+		out = append(out, tinySLetter{tinyLetter{OpInvoke, s, false, []Param{{K: tinyGA}}, nil, fmt.Sprintf("inv([]A@g)@s%d", s)}, 0})
+	}
+	return out
+}
+
+// Only sequences that are histories are enumerated: tinySCount(n, created) is the number of valid
+// continuations of length n when the scopes in the bit set created exist; an index is unranked letter
+// by letter with these counts.
+var tinySMemo = map[[2]int]int{}
+
+func tinySValid(l tinySLetter, created int) (int, bool) {
+	if l.mk > 0 {
+		if created&(1<<uint(l.mk)) != 0 || created&(1<<uint(tinyScopeParent[l.mk])) == 0 {
+			return created, false
+		}
+		return created | 1<<uint(l.mk), true
+	}
+	return created, created&(1<<uint(l.scope)) != 0
+}
+
+func tinySCount(n, created int) int {
+	if n == 0 {
+		return 1
+	}
+	k := [2]int{n, created}
+	if v, ok := tinySMemo[k]; ok {
+		return v
+	}
+	t := 0
+	for _, l := range tinySAlphabet {
+		if nc, ok := tinySValid(l, created); ok {
+			t += tinySCount(n-1, nc)
+		}
+	}
+	tinySMemo[k] = t
+	return t
+}
+
+func tinySTotal(maxLen int) int {
+	t := 0
+	for n := 1; n <= maxLen; n++ {
+		t += tinySCount(n, 1)
+	}
+	return t
+}
+
+func decodeTinyS(idx int) []int {
+	n := 1
+	for ; idx >= tinySCount(n, 1); n++ {
+		idx -= tinySCount(n, 1)
+	}
+	created := 1
+	letters := make([]int, 0, n)
+	for pos := 0; pos < n; pos++ {
+		for li, l := range tinySAlphabet {
+			nc, ok := tinySValid(l, created)
+			if !ok {
+				continue
+			}
+			c := tinySCount(n-pos-1, nc)
+			if idx < c {
+				letters = append(letters, li)
+				created = nc
+				break
+			}
+			idx -= c
+		}
+	}
+	return letters
+}
+
+// genTinyS returns nil for sequences that are not histories.
+func genTinyS(idx int, r *rand.Rand) *History {
+	letters := decodeTinyS(idx)
+	h := &History{}
+	h.Opts.Defer = r.Intn(4) == 0
+	h.Opts.Recover = r.Intn(2) == 0
+	h.Opts.RandSeed = r.Int63n(1 << 30)
+	index := map[int]int{0: 0} // logical scope -> creation index
+	mk := func(s int) bool {
+		if _, ok := index[s]; ok {
+			return false
+		}
+		pi, ok := index[tinyScopeParent[s]]
+		if !ok {
+			return false
+		}
+		index[s] = len(index)
+		h.Ops = append(h.Ops, Op{Kind: OpScope, Scope: pi})
+		return true
+	}
+	emit := func(l tinyLetter) bool {
+		si, ok := index[l.scope]
+		if !ok {
+			return false
+		}
+		f := &Fn{ID: len(h.Fns), Params: append([]Param(nil), l.params...), Results: append([]Res(nil), l.results...)}
+		h.Fns = append(h.Fns, f)
+		h.Ops = append(h.Ops, Op{Kind: l.kind, Scope: si, Fn: f.ID, Export: l.export})
+		return true
+	}
+	var names []string
+	for _, li := range letters {
+		l := tinySAlphabet[li]
+		names = append(names, l.name)
+		if l.mk > 0 {
+			if !mk(l.mk) {
+				return nil
+			}
+			continue
+		}
+		if !emit(l.tinyLetter) {
+			return nil
+		}
+	}
+	for s := 1; s <= 3; s++ {
+		mk(s)
+	}
+	for s := 0; s <= 3; s++ {
+		for _, k := range []Key{tinyA, tinyB, tinyGA} {
+			emit(tinyLetter{kind: OpInvoke, scope: s, params: []Param{{K: k}}})
+		}
+	}
+	h.Note = "tinyscope: " + strings.Join(names, " ; ")
+	return h
+}
